@@ -122,10 +122,10 @@ CLAIMED["C10"] = {
             "fixed size (44 / 54 octets); every frame any port-level host call emits bears the port's identity and the instance's "
             "domain and sdoId, a call emits at most one frame (hence at most one event send), and by induction over every host history "
             "(any length, so through every wrap) the Announce / Sync / Delay_Req / Pdelay_Req frames of a port are numbered c, c+1, … "
-            "mod 2^16 and nothing else moves a counter (seq_numbers_consecutive). Message::sync, follow_up, delay_req, delay_resp and pdelay_req "
+            "mod 2^16 and nothing else moves a counter (seq_numbers_consecutive). Message::sync, follow_up, delay_req, delay_resp, pdelay_req, pdelay_resp and pdelay_resp_follow_up "
             "are translated from the source on every run (base header, every overridden header field and its source, body) and the "
             "interpretation is proved equal to the model's constructors for all arguments (generated_sync_is_model, generated_follow_up_is_model, "
-            "generated_delay_req_is_model, generated_delay_resp_is_model, generated_pdelay_req_is_model). Model tied by the inst stream (every emitted frame "
+            "generated_delay_req_is_model, generated_delay_resp_is_model, generated_pdelay_req_is_model, generated_pdelay_resp_is_model, generated_pdelay_resp_follow_up_is_model). Model tied by the inst stream (every emitted frame "
             "bit-exact) plus an independent frame oracle.",
     "note": "Trusted: Lean kernel; generators; range assumptions on configuration fields (Rust integer types). Announce size and "
             "decodability with forwarded TLVs is C15. The Delay_Resp correction overflow (panic) is C03.",
